@@ -231,14 +231,15 @@ pub fn run(shard: &Shard) -> i32 {
             let p = Profile { only_all_impacted: true, with_dominance: true, small: rng.chance(1, 2), weak_t_dominance: true, medium_share: 1, large_share: 1, deceptive_share: if shard.idx % 4 == 3 { 6 } else { 1 }, ..Default::default() };
             let mut spec = random_spec(rng, &p);
             if spec.variant.dom == DomKind::None { spec.variant.dom = if rng.chance(2, 3) { DomKind::Exact } else { DomKind::Weak }; }
-            // a third of the cases on the corner that exposed H7: re-convergent table instances (many equally good states),
+            // half of the cases on the corner that exposed H7: re-convergent table instances (many equally good states),
             // the tie-breaking dominance rule, very narrow diagrams (restricted diagrams truncate almost everything)
-            if rng.chance(1, 3) {
+            if rng.chance(1, 2) {
                 use crate::models::tmodel::*;
                 spec.family = 'T';
                 spec.size = (if rng.chance(1, 2) { SZ_TINY } else { SZ_SMALL }) | F_RECONVERGENT | if rng.chance(1, 2) { F_NO_BONUS } else { 0 } | if rng.chance(1, 3) { F_NO_DEAD_END } else { 0 };
                 spec.variant.dom = DomKind::Weak;
-                spec.cfg.width = crate::runner::WidthKind::Fixed(1 + rng.usize(2));
+                spec.cfg.width = crate::runner::WidthKind::Fixed(if rng.chance(2, 3) { 1 } else { 2 });
+                if rng.chance(1, 2) { spec.variant.rank = crate::models::RankKind::Random(rng.next() % 1000); }
             }
             if rng.chance(1, 3) {
                 // parallel: free running, or under the controlled scheduler with the dominance queries as yield points
